@@ -66,6 +66,20 @@ Theorem disable_code_exact : forall c x E,
 Proof. exact disable_code_exact_proof. Qed.
 Print Assumptions disable_code_exact.
 
+(* The hypothesis `has_ignores c = true` of disable_code_exact is necessary: while the file has no entry in
+   ignored_lines yet (errors reported before its ignore comments are registered, e.g. inline `# mypy:` configuration
+   errors) add_error_info never consults is_ignored_error, and a diagnostic carrying a DISABLED code is reported.
+   Replayed on real mypy: `# mypy: no-always-true` with --disable-error-code misc still prints the [misc] error. *)
+Theorem disable_code_refuted_before_registration :
+  exists c x i, has_ignores c = false /\ ignore_all c = false /\ iblocker i = false /\
+    code_disabled (disable_code c x) i = true /\ In i (out (run (disable_code c x) [i])).
+Proof.
+  exists (mk_cfg [] false false [] [] [] []), "misc"%string,
+         (mk_info 0 1 0 [1] (Some misc) true false false "Can not invert non-boolean key always_true" None "").
+  vm_compute. repeat split; auto.
+Qed.
+Print Assumptions disable_code_refuted_before_registration.
+
 (* hypotheses are satisfiable, on non-trivial streams *)
 Definition ex_c : cfg := mk_cfg [(7, ["misc"%string])] true false [] [] [] [].
 Definition ex_e1 := mk_info 0 3 0 [3] (Some (mk_ecode "arg-type" None true None)) true false false "bad arg" None "m".
